@@ -323,7 +323,7 @@ impl Prop for C09 {
             0 => {
                 let ms = mantissas();
                 for i in a..b {
-            out.idx = Some(i);
+            out.at(i);
                     let m = ms[(i / 29) as usize];
                     let s = (i % 29) as u32;
                     for (text, wm, ws) in spellings(m, s) {
@@ -367,7 +367,7 @@ impl Prop for C09 {
                 let n = set.len() as u64;
                 let name = if stage == 1 { "edges" } else { "square" };
                 for i in a..b {
-            out.idx = Some(i);
+            out.at(i);
                     let x = &set[(i / n) as usize];
                     let y = &set[(i % n) as usize];
                     for op in OPS {
